@@ -119,3 +119,32 @@ fn next_larger_graphs() {
         }
     }
 }
+
+/// PL -> TFM: the dimension tables respect the TFM limits (index 0 is the reserved zero entry, so 255 / 15 / 15 / 63
+/// non-zero classes) and every character's indices point inside them - for fonts with exactly / just above the limit
+#[test]
+fn pl_table_limits() {
+    std::panic::set_hook(Box::new(|_| {}));
+    for k in [14usize, 15, 16, 17, 40, 63, 64, 65] {
+        let mut src = String::new();
+        for i in 0..k {
+            src.push_str(&format!("(CHARACTER D {} (CHARWD R 1.0) (CHARHT R {:.4}) (CHARDP R {:.4}) (CHARIC R {:.4}))\n",
+                i + 1, 0.01 * (i + 1) as f64, 0.02 * (i + 1) as f64, 0.005 * (i + 1) as f64));
+        }
+        let s2 = src.clone();
+        let got = std::panic::catch_unwind(move || { let (plf, _) = pl::File::from_pl_source_code(&s2); File::from(plf) }).ok();
+        let Some(f) = got else { println!("WITNESS {{\"fn\": \"from\", \"characters\": {k}, \"observed\": \"panic\"}}"); return; };
+        let mut why: Option<String> = None;
+        if f.widths.len() > 256 { why = Some(format!("{} width entries", f.widths.len())); }
+        if f.heights.len() > 16 { why = Some(format!("{} height entries (limit 16 incl. the zero entry)", f.heights.len())); }
+        if f.depths.len() > 16 { why = Some(format!("{} depth entries (limit 16 incl. the zero entry)", f.depths.len())); }
+        if f.italic_corrections.len() > 64 { why = Some(format!("{} italic entries (limit 64 incl. the zero entry)", f.italic_corrections.len())); }
+        for (c, d) in &f.char_dimens {
+            if d.height_index as usize >= f.heights.len() || d.height_index > 15 { why = Some(format!("character {} has height index {}", c.0, d.height_index)); }
+            if d.depth_index as usize >= f.depths.len() || d.depth_index > 15 { why = Some(format!("character {} has depth index {}", c.0, d.depth_index)); }
+            if d.italic_index as usize >= f.italic_corrections.len() || d.italic_index > 63 { why = Some(format!("character {} has italic index {}", c.0, d.italic_index)); }
+        }
+        if f.char_dimens.len() != k { why = Some(format!("{} of {k} characters survived", f.char_dimens.len())); }
+        if let Some(w) = why { println!("WITNESS {{\"fn\": \"from\", \"unit_fns\": [\"from\", \"compress\"], \"characters_with_distinct_dimensions\": {k}, \"observed\": \"{w}\", \"expected\": \"at most 255/15/15/63 non-zero classes, all indices inside the tables (PLtoTF.2014.75-80)\"}}"); return; }
+    }
+}
